@@ -35,6 +35,7 @@ Judge(r) ==
 (***************************************************************************)
 Judge13(r) ==
   IF ~r.returned THEN ""                                      \* the run stopped with an error: C20's business
+  ELSE IF \E j \in 1..Len(r.asked) : r.asked[j] \in DOMAIN r.before THEN "the run asks for an input the file already supplied"
   ELSE IF ~WellFormed(r) THEN "the written-back input file is not well-formed"
   ELSE IF ~KeepsFile(r) THEN "write-back changed a value the file held"
   ELSE IF ~KeepsAnswers(r) THEN "an answer was not written back"
